@@ -695,3 +695,150 @@ func c16MapLoops(p *load.Prog, r *oblig.Run) {
 		r.Add("R16.m", "mapping loops", "-", "anchor").Unknown("no Evaluate method maps itself over the elements of a list")
 	}
 }
+
+// c16OperandSides (R16.n): the helpers that prepare the two operands of a comparison keep them apart. For every
+// function of package q that takes two operands of one type and returns two values of one type (binaryStrings,
+// binaryFloats), the first result depends on the first operand only and the second on the second only (value flow
+// incl. the conditions that select a value); a helper that hands two prepared operands to a comparison function
+// (compareStrings) hands them over in that order, each computed from its own operand.
+func c16OperandSides(p *load.Prog, r *oblig.Run) {
+	r.Rule("R16.n", "the helpers that prepare the operands of a comparison compute the left value from the left operand only and the right value from the right operand only", 3)
+	depsOf := func(v ssa.Value) map[*ssa.Parameter]bool {
+		out := map[*ssa.Parameter]bool{}
+		paramDeps(v, out, map[ssa.Value]bool{})
+		return out
+	}
+	only := func(d map[*ssa.Parameter]bool, prm *ssa.Parameter) bool {
+		if !d[prm] {
+			return false
+		}
+		for q := range d {
+			if q != prm {
+				if _, isFn := q.Type().Underlying().(*types.Signature); isFn {
+					continue
+				}
+				return false
+			}
+		}
+		return true
+	}
+	n := 0
+	for _, fn := range p.Repo {
+		if pkgPathOf(fn) != load.PkgQ || fn.Parent() != nil || fn.Synthetic != "" || len(fn.Blocks) == 0 || fn.Signature.Recv() != nil {
+			continue
+		}
+		ps := fn.Params
+		if len(ps) < 2 || !types.Identical(ps[0].Type(), ps[1].Type()) {
+			continue
+		}
+		res := fn.Signature.Results()
+		bad := ""
+		applies := false
+		if res.Len() >= 2 && types.Identical(res.At(0).Type(), res.At(1).Type()) {
+			applies = true
+			for _, b := range fn.Blocks {
+				ret, ok := b.Instrs[len(b.Instrs)-1].(*ssa.Return)
+				if !ok || len(ret.Results) < 2 {
+					continue
+				}
+				if _, k0 := ret.Results[0].(*ssa.Const); k0 {
+					if _, k1 := ret.Results[1].(*ssa.Const); k1 {
+						continue
+					}
+				}
+				if !only(depsOf(ret.Results[0]), ps[0]) {
+					bad = "the first value returned at " + p.Pos(ret.Pos()) + " is not computed from the first operand alone"
+				}
+				if !only(depsOf(ret.Results[1]), ps[1]) {
+					bad = "the second value returned at " + p.Pos(ret.Pos()) + " is not computed from the second operand alone"
+				}
+			}
+		}
+		// a comparison function handed in and called with two prepared operands
+		for _, c := range su.Calls(fn) {
+			cc := c.Common()
+			if prm, ok := cc.Value.(*ssa.Parameter); ok && prm.Parent() == fn && len(cc.Args) == 2 {
+				applies = true
+				if !only(depsOf(cc.Args[0]), ps[0]) {
+					bad = "the first operand handed to the comparison at " + p.Pos(c.Pos()) + " is not computed from the first operand alone"
+				}
+				if !only(depsOf(cc.Args[1]), ps[1]) {
+					bad = "the second operand handed to the comparison at " + p.Pos(c.Pos()) + " is not computed from the second operand alone"
+				}
+			}
+		}
+		if !applies {
+			continue
+		}
+		n++
+		o := r.Add("R16.n", "operand sides of "+load.FuncName(fn), p.Pos(fn.Pos()), "left from left, right from right")
+		if bad != "" {
+			o.Fail(bad + ": a comparison then compares one side of the operator with itself or with the wrong text ('=' always true, '<' always false for such operands)")
+		} else {
+			o.OK("each prepared operand is computed from its own side")
+		}
+	}
+	if n == 0 {
+		r.Add("R16.n", "operand helpers", "-", "anchor").Unknown("no two-operand helper found in package q")
+	}
+}
+
+// c16NoEarlyAnswer (R16.o): a loop of an Evaluate method that walks the elements of its input list does not hand
+// back a result (with a nil error) from inside the loop - the answer of a list function is computed from every
+// element. A defensive `return results, nil` for an odd element where `continue` was meant drops the rest of the
+// list. Only returns whose error result is the nil constant count; error returns end the evaluation by design.
+func c16NoEarlyAnswer(p *load.Prog, r *oblig.Run) {
+	r.Rule("R16.o", "no Evaluate method answers (without an error) from inside a loop over the elements of its input", 4)
+	var fns []*ssa.Function
+	for _, fn := range p.Repo {
+		if fn.Name() == "Evaluate" && pkgPathOf(fn) == load.PkgQ && fn.Synthetic == "" && len(fn.Blocks) > 0 && fn.Signature.Recv() != nil && fn.Signature.Results().Len() == 2 {
+			fns = append(fns, fn)
+		}
+	}
+	sort.Slice(fns, func(i, j int) bool { return fns[i].String() < fns[j].String() })
+	for _, fn := range fns {
+		hs := loopHeaders(fn)
+		if len(hs) == 0 {
+			continue
+		}
+		// loops bounded by the length of a list (reflect Len / len)
+		var listLoops []*ssa.BasicBlock
+		env := &descEnv{p: p, params: map[*ssa.Parameter]string{}, noInline: true}
+		for _, h := range hs {
+			if iff, ok := h.Instrs[len(h.Instrs)-1].(*ssa.If); ok {
+				d := env.desc(iff.Cond, 0)
+				if strings.Contains(d, "Value.Len(") || strings.Contains(d, "len(") {
+					listLoops = append(listLoops, h)
+				}
+			}
+		}
+		if len(listLoops) == 0 {
+			continue
+		}
+		o := r.Add("R16.o", "returns inside the list loops of "+load.FuncName(fn), p.Pos(fn.Pos()), "answers from inside a loop over the input")
+		bad := ""
+		for _, b := range fn.Blocks {
+			ret, ok := b.Instrs[len(b.Instrs)-1].(*ssa.Return)
+			if !ok || len(ret.Results) != 2 {
+				continue
+			}
+			if k, isK := ret.Results[1].(*ssa.Const); !isK || k.Value != nil {
+				continue // hands an error on
+			}
+			for _, h := range listLoops {
+				// inside the loop: dominated by the successor of the header that belongs to the loop (a block that
+				// returns never reaches the header again)
+				for _, sx := range h.Succs {
+					if loopBlock(sx, h) && len(sx.Preds) == 1 && (sx == b || sx.Dominates(b)) {
+						bad = "the return at " + p.Pos(ret.Pos()) + " answers without an error from inside the loop over the list"
+					}
+				}
+			}
+		}
+		if bad != "" {
+			o.Fail(bad + ": the elements after the one that took this path are never looked at - the result of the list function is cut short")
+		} else {
+			o.OK("only error returns leave the loops over the input")
+		}
+	}
+}
